@@ -1,0 +1,24 @@
+//go:build verif
+
+package icmp
+
+import (
+	"net/netip"
+
+	"github.com/DataDog/datadog-traceroute/common"
+	"github.com/DataDog/datadog-traceroute/packets"
+)
+
+// VerifNewDriver constructs the real icmpDriver over a given Source/Sink.
+func VerifNewDriver(params Params, localAddr netip.Addr, sink packets.Sink, source packets.Source) common.TracerouteDriver {
+	return newICMPDriver(params, localAddr, sink, source)
+}
+
+// VerifEchoID returns the echo identifier of a driver made by VerifNewDriver.
+func VerifEchoID(d common.TracerouteDriver) uint16 { return d.(*icmpDriver).echoID }
+
+// VerifSetEchoIDCounter presets the process-wide echo ID counter.
+func VerifSetEchoIDCounter(v uint32) { curEchoID.Store(v) }
+
+// VerifNextEchoID calls the real allocator.
+func VerifNextEchoID() uint16 { return nextEchoID() }
